@@ -903,6 +903,10 @@ _QP = "skfem/element/element_quad/element_quadp.py"
 _LP = "skfem/element/element_line/element_line_pp.py"
 _GUARD = "        if self._X.shape != X.shape or (self._X != X).any():"
 MUTANTS = [
+    ("direct solver hands a non-canonical operand to spsolve",
+     (_U, "        if not A.has_canonical_format:\n            A = A.copy()  "
+      "# spsolve sorts the indices of its operand in place\n", ""),
+     "C15-R5"),
     ("symmetric eigensolver leaves the start vector to ARPACK",
      (_U, "        return eigsh(K, M=M, **{'v0': np.ones(K.shape[0]),\n"
       "                                **params, **solve_time_kwargs})",
@@ -1063,6 +1067,10 @@ MUTANTS = [
       "Optional[ndarray]:\n"), "C15-R5"),
 ]
 TWINS = [
+    ("direct solver always copies its operand",
+     (_U, "        if not A.has_canonical_format:\n            A = A.copy()  "
+      "# spsolve sorts the indices of its operand in place\n",
+      "        A = A.copy()\n")),
     ("exterior facets re-oriented with np.where",
      ("skfem/mesh/mesh.py",
       "            ori[self.f2t[1, facets] == -1] = 0\n            return "
